@@ -149,8 +149,33 @@ def run(R):
         R.check(len(sn) == 1 and show(strip_refs(nw.origin(sn[0][1]['args'][0]))).startswith('arg4'), 'C15.R3', 'ServerName-from-domain-arg', site(nw), 'ServerName::try_from(domain)')
         ag = mirlib.aggregates(nw, 'channel::service::tls::TlsConnector')
         okd = len(ag) == 1 and term_contains(nw.origin(ag[0][4][ag[0][3]['fields'].index('domain')]), lambda x: is_call(x, name='try_from'))
-        oka = len(ag) == 1 and show(nw.origin(ag[0][4][ag[0][3]['fields'].index('assume_http2')])).startswith('arg5')
-        R.check(okd and oka, 'C15.R3', 'connector-fields', site(nw), 'TlsConnector{domain: ServerName(domain), assume_http2: assume_http2}: %r/%r' % (okd, oka))
+        # the opt-out flag of the connector: the field that stores the assume_http2 parameter (argument 5, as passed by
+        # into_tls_connector above) — as the bool itself, or as a field-less enum chosen by that bool alone
+        OPT = None
+        if len(ag) == 1:
+            for fname_, op_ in zip(ag[0][3]['fields'], ag[0][4]):
+                o_ = strip_refs(mirlib.simplify(nw.origin(op_)))
+                if o_[:2] == ('arg', 5):
+                    OPT = (fname_, 'bool', None)
+            if OPT is None:
+                meta_ = {}
+                by_flag = {}
+                for cons_, path_ in mirlib.path_rows(nw, stop={ag[0][0]}, meta=meta_, relevant=lambda sub_: sub_.startswith('arg5')):
+                    if path_[-1] != ag[0][0]:
+                        continue
+                    fl_ = [(op2_, v_) for sub_, op2_, v_ in cons_ if sub_.startswith('arg5')]
+                    truth_ = None if not fl_ else ((fl_[-1][0] == '==' and fl_[-1][1] not in (0, False)) or (fl_[-1][0] in ('!=', 'notin') and (fl_[-1][1] in (0, False) or fl_[-1][1] == (0,))))
+                    for fname_, op_ in zip(ag[0][3]['fields'], ag[0][4]):
+                        v_ = strip_refs(mirlib.simplify(nw.origin_on_path(op_, path_)))
+                        if v_ and v_[0] == 'agg' and v_[1].get('kind') == 'adt' and v_[1].get('variant') and not v_[2] and 'tls::' in (v_[1].get('adt') or ''):
+                            by_flag.setdefault(fname_, {}).setdefault(truth_, set()).add(v_[1]['variant'])
+                for fname_, m_ in by_flag.items():
+                    if set(m_) == {True, False} and len(m_[True]) == 1 and len(m_[False]) == 1 and m_[True] != m_[False]:
+                        OPT = (fname_, 'enum', list(m_[True])[0])
+        oka = OPT is not None
+        R.check(okd and oka, 'C15.R3', 'connector-fields', site(nw), 'TlsConnector{domain: ServerName(domain), <opt-out flag>: from assume_http2}: %r/%r (%r)' % (okd, oka, OPT))
+        if OPT is None:
+            raise CheckError('UNRECOGNISED: no field of TlsConnector stores the assume_http2 argument')
         cn = tonic.body('channel::service::tls::TlsConnector::connect::{closure#0}')
         R.saw(cn)
         rc = [(bb, t) for bb, t in cn.calls(name='connect') if 'tokio_rustls' in (t.get('fn') or '')]
@@ -218,8 +243,14 @@ def run(R):
                         h2 = True  # the payload only exists on the Some arm
                 elif u_[0] == 'discr' and is_call(strip_refs(u_[1]), name='alpn_protocol'):
                     pass
-                elif field_names(u_)[-1:] == ['assume_http2'] and val_true:
+                elif OPT[1] == 'bool' and field_names(u_)[-1:] == [OPT[0]] and val_true:
                     opt = True
+                elif OPT[1] == 'enum' and u_[0] == 'discr' and field_names(u_[1])[-1:] == [OPT[0]]:
+                    names_ = dict(meta.get(subj, []))
+                    if op == '==' and names_.get(v) == OPT[2]:
+                        opt = True
+                    elif op == 'notin' and [n_ for d_, n_ in meta.get(subj, []) if d_ not in v] == [OPT[2]]:
+                        opt = True
             R.check(h2 or opt, 'C15.R4', 'ok-requires-h2-or-opt-out', site(cn, path[-1]), 'a path to Ok asserts alpn_protocol() == Some(h2) (%r) or assume_http2 (%r)' % (h2, opt))
         R.check(seen_cmp, 'C15.R4', 'compares-with-Some(h2)', site(cn), 'alpn_protocol() is compared with Some(ALPN_H2) — None (no ALPN negotiated) does not match: %r' % seen_cmp)
         R.floor('C15.R4', 'paths to Ok after the ALPN read', nok, 2)
